@@ -12,7 +12,8 @@ RULE = ("generated graphs (filter grid with k <= 3 at t = 1, 2 + seeded order-2 
         "settings; remove_nasty_arc called repeatedly (<= 12 quick / until the first raise, <= 60 thorough); after every call: exactly "
         "one accessor entry changed, from a live successor to -1, it carries the maximum of calculate_intersection_score computed on a copy "
         "before the call, the latter map lost exactly that successor, accessor and latter map describe the same graph, the returned "
-        "objects are the ones passed in; scores have the accessor's shape, are >= 0 and positive only on arcs; non-trivial = >= 2 calls returned")
+        "objects are the ones passed in; scores have the accessor's shape, are >= 0, positive only on arcs and equal the set-based restatement of the "
+        "scoring scheme (contracts/specs.py intersection_scores); non-trivial = >= 2 calls returned")
 EXHAUSTIVE = {"quick": False, "thorough": False}
 CHUNK = 1
 
@@ -23,7 +24,7 @@ def cases(tier, rng):
             for t in (1, 2):
                 for flags in ((True, True), (True, False), (False, True), (False, False)):
                     yield {"src": "grid", "cfg": i, "t": t, "flags": list(flags), "nt": True}
-    for _ in range(10 if tier == "quick" else 150):
+    for _ in range(40 if tier == "quick" else 300):
         yield {"src": "mask", "mask": rng.getrandbits(16) | rng.getrandbits(16), "t": rng.choice((1, 2)),
                "flags": [rng.random() < 0.5, rng.random() < 0.5], "nt": True}
 
@@ -56,6 +57,10 @@ def check(case):
             fails.append(("scores:raises", f"{tag} step {step}: calculate_intersection_score -> {sc[:2]!r}"))
             return fails
         scores = sc[1]
+        ref = S.intersection_scores({int(a): [int(x) for x in b] for a, b in lm.items()}, k, ins, dele)
+        if scores.tolist() != ref:
+            fails.append(("scores:scheme", f"{tag} step {step}: intersection scores differ from the set-based restatement of the scoring scheme"))
+            return fails
         if scores.shape != before.shape or (scores < 0).any() or ((scores > 0) & (before < 0)).any():
             fails.append(("scores:shape-or-sign", f"{tag} step {step}: scores not of the accessor's shape / positive off an arc"))
         r = outcome(remove_nasty_arc, acc, lm, 0, ins, dele, limit=60)
